@@ -20,7 +20,7 @@ HARNESSES = (("match_h", ["libdbus-daemon-internal.a"]),)
 MLS = ("match",)
 THEOREMS = ["C07_exactly_once", "C07_matches_spec", "C07_broadcast_delivery", "C07_unicast_delivery",
             "C07_no_fault", "C07_dispatch_total", "C07_rule_equal", "C07_remove",
-            "C07_remove_single_reply_refuted", "C07_disconnect_clears", "C07_disconnect_keeps", "C07_reachable_inv",
+            "C07_remove_single_reply", "C07_remove_not_found", "C07_remove_failure_keeps", "C07_disconnect_clears", "C07_disconnect_keeps", "C07_reachable_inv",
             "C07_tokenize_exact", "C07_tokenize_partial", "C07_parse_items", "C07_parse_partial", "C07_parse_refuted",
             "C07_parse_refuted_token_cap", "C07_parse_refuted_backslash", "C07_parse_refuted_arg_key", "C07_parse_refuted_unique_name"]
 
@@ -45,6 +45,8 @@ def load_known():
         for k in json.load(open(p)):
             if k.get("property") == "C07" and k.get("status") == "known":
                 known.setdefault(k["id"], k)
+            elif k.get("property") == "C07" and k.get("status") == "fixed":
+                known.pop(k["id"], None)          # a fixed finding suppresses nothing
     return known
 
 
@@ -507,7 +509,7 @@ def run(ctx):
                     elif op == "rm" and m == "R ok" and sp == "R notfound" and b"path_namespace" in text and "F8" in known:
                         rep.known(known["F8"], ml[j])
                         spec_live = False
-                    elif op == "rm" and m == "R oknotfound" and sp == "R ok" and any(g.encode() in text for g in gone) and "C07-N3" in known:
+                    elif op == "rm" and m == "R notfound" and sp == "R ok" and any(g.encode() in text for g in gone) and "C07-N3" in known:
                         rep.known(known["C07-N3"], ml[j])
                         spec_live = False
                     else:
